@@ -2145,6 +2145,12 @@ func (a *Agent) renominateCandidate(local, remote Candidate) error {
 		return ErrCandidatePairNotFound
 	}
 
+	// Only a validated pair can be nominated: a lite peer selects the pair on the
+	// nomination alone, without a connectivity check of its own.
+	if pair.state != CandidatePairStateSucceeded {
+		return ErrCandidatePairNotSucceeded
+	}
+
 	// Send nomination with custom attribute
 	return a.sendNominationRequest(pair, a.getNominationValue())
 }
